@@ -10,14 +10,14 @@ XLINK = 'http://www.w3.org/1999/xlink'
 XMLNS = 'http://www.w3.org/XML/1998/namespace'
 MATH = 'http://www.w3.org/1998/Math/MathML'
 
-NAMES = ['div', 'p', 'span', 'a', 'ul', 'li', 'b', 'em', 'x-y', 'section', 'dd', 'Section', 'DIV']     # case survives in API-built and XML trees
+NAMES = ['div', 'p', 'span', 'a', 'ul', 'li', 'b', 'em', 'x-y', 'section', 'dd', 'Section', 'DIV', 'kbd']     # case survives in API-built and XML trees
 CLASSES = ['x', 'y', 'zed', 'X', 'a-b', 'é']
 IDS = ['a', 'b', 'main', 'A', '1st', 'i d']
 TEXTS = ['', ' ', '\n', ' \t\n', 'hello', 'hello world', 'x', 'a"b', "it's", 'אבג', 'مرحبا', '123', '  pad  ',
          '\xa0', 'line\nbreak', 'end', ' ', 'abc\x0bdef', '١٢٣ abc', 'ab', 'cd', 'abcd', 'Hello', 'say "hi"', "'q'", 'x"', "don'", 'b\\']
 ATTR_VALUES = ['', 'x', 'x y', 'en', 'en-US', 'de-DE-1996', 'a-b', 'a b c', 'X', 'val', 'val\n', ' x', 'x-', 'true', 'TRUE',
                'é', 'http://e/x', '#frag', 'x\ty', '-', 'abc', 'ABC', 'ab', 'bc', 'say "hi"', "it's'", '"', "'", 'a\\']
-GENERIC_ATTRS = ['title', 'href', 'data-x', 'lang', 'dir', 'TITLE', 'rel', 'name', 'hidden', 'contenteditable']
+GENERIC_ATTRS = ['title', 'href', 'data-x', 'lang', 'dir', 'TITLE', 'rel', 'name', 'hidden', 'contenteditable', 'kind']
 INPUT_TYPES = ['text', 'checkbox', 'radio', 'submit', 'hidden', 'number', 'range', 'date', 'month', 'week', 'time',
                'datetime-local', 'tel', 'email', 'url', 'search', 'password', 'button', '', 'TEXT', 'Radio', 'bogus']
 
@@ -197,6 +197,9 @@ class TGen:
                 for _ in range(r.choice([0, 0, 1, 2, 3])):
                     ifr = ('e', self.pick(['div', 'span', 'fieldset']), {}, [ifr])
                 kids.append(ifr)
+            elif k < 0.31:
+                # a FOREIGN element called iframe (namespace-aware parsers keep it in the SVG namespace): not a document boundary
+                kids.append(('e', 'svg', {}, [('e', 'iframe', {}, [('e', 'foreignObject', {}, [self.control(depth + 1), self.control(depth + 1)])])]))
             else:
                 kids.append(self.control(depth))
         return ('e', 'form', {}, kids)
